@@ -970,7 +970,7 @@ class Engine:
     def expr_Name(self, node, s, fr):
         if node.id in s.env:
             return s.env[node.id]
-        if node.id in ('np', 'numpy', 'math', 'pa', 'pd'):
+        if node.id in ('np', 'numpy', 'math', 'pa', 'pd', 'dd', 'dask'):
             return bnp.Module(node.id)
         c = self.reg.lookup(node.id)
         if c is not None:
